@@ -366,6 +366,26 @@ def work_options(chunk):
     return (len(chunk), out)
 
 
+def column_docs():
+    """one loop column holding every ordered pair (and, for a subset, triple) of values of different kinds in consecutive packets:
+    what one packet held must not show through in the next (the parser recycles its value objects from packet to packet)"""
+    one = ('s', '1', 0)
+    V = [('?', ('u',)), ('.', ('a',)), ('x', ('s', 'x', 0)), ("'q r'", ('s', 'q r', 1)), ('[]', ('l', ())), ('[a]', ('l', (('s', 'a', 0),))), ('[a b]', ('l', (('s', 'a', 0), ('s', 'b', 0)))),
+         ('{}', ('t', ())), ("{'a':1}", ('t', (('a', one),))), ("{'a':1 'b':[1]}", ('t', (('a', one), ('b', ('l', (one,)))))), ("{'c':?}", ('t', (('c', ('u',)),))),
+         ('[[a] {\"k\":.}]', ('l', (('l', (('s', 'a', 0),)), ('t', (('k', ('a',)),))))), ('\n;t\n;', ('s', 't', 1)), ('1.5(2)', ('s', '1.5(2)', 0))]
+    head = '#\\#CIF_2.0\n'
+    out = []
+    def S(tok):
+        return '' if tok.startswith('\n') else '\n'
+    for a in V:
+        for b in V:
+            out.append((head + 'data_b\nloop_\n_a' + S(a[0]) + a[0] + S(b[0]) + b[0] + '\n', {'b': {'loops': [[('_a',), [(a[1],), (b[1],)]]], 'frames': {}}}))
+            out.append((head + 'data_b\nloop_\n_k\n_a\n1' + S(a[0]) + a[0] + '\n1' + S(b[0]) + b[0] + '\n', {'b': {'loops': [[('_k', '_a'), [(one, a[1]), (one, b[1])]]], 'frames': {}}}))
+            for c in V[:8]:
+                out.append((head + 'data_b\nloop_\n_a' + S(a[0]) + a[0] + S(b[0]) + b[0] + S(c[0]) + c[0] + '\n', {'b': {'loops': [[('_a',), [(a[1],), (b[1],), (c[1],)]]], 'frames': {}}}))
+    return out
+
+
 CORE_ATOMS = ['a', '1.5(3)', '', "it's", 'x"y', ';', 'a\\', '[a]', 'loop_', '\u00e9\U0001F600', 'a\n;b', 'trail ', 'a\n', '?']
 
 
@@ -500,6 +520,17 @@ def main():
                     rep.violation({'dialect': 'CIF2' if cif2 else 'CIF1.1', 'kind': kind, 'structure': struct, 'doc': text[:60] if len(text) < 300 else text[:40] + '...'},
                                   {'dialect': 'CIF2' if cif2 else 'CIF1.1', 'structure': struct, 'document': text[:3000], 'message': msg})
             nontriv += len(Tc) ** 3
+    cd = column_docs()
+    summary['columns'] = {'documents': len(cd)}
+    for res in pmap(work_names, chunked(cd, 40), (True,)):
+        if isinstance(res, dict):
+            rep.violation({'kind': 'executor'}, res)
+            continue
+        n, out = res
+        total += n
+        nontriv += n
+        for kind, struct, text, msg in out:
+            rep.violation({'kind': kind, 'structure': 'column', 'doc': text[:60]}, {'structure': 'column', 'document': text[:3000], 'message': msg})
     od = option_docs()
     summary['options'] = {'documents': len(od)}
     for res in pmap(work_options, chunked(od, 40)):
@@ -513,7 +544,7 @@ def main():
             rep.violation({'kind': kind, 'structure': struct, 'doc': text[:60]}, {'structure': struct, 'document': text[:3000], 'message': msg})
     return rep.finish({'evaluations': total, 'distinct_nontrivial': nontriv,
                        'rule': 'every document with 2 value tokens: ordered pairs over all (atom, presentation) tokens (%d atoms; presentations bare, single/double quoted, triple quoted, text field, folded text field with cuts, prefixed, prefixed+folded as admissible) '
-                               'in structures %s (CIF 1.1: %s), separators %r (full cross product for scalar pairs and loops), with and without the version comment; thorough: also every ordered TRIPLE over the reduced token set (all presentations of 14 core atoms) in a loop row, a loop column and a list; content known by construction from the generator; plus the names family: block code, frame code, data name, looped name and table key carrying each of %d name characters (delimiters that are ordinary inside a name, first / last code point of every permitted range, characters that grow under normalisation) at the start, in the middle, at the end and doubled. Options family: folded / prefixed / folded+prefixed text fields under all 9 combinations of line_folding_modifier and text_prefixing_modifier in both dialects, where cif.h states the outcome. '
+                               'in structures %s (CIF 1.1: %s), separators %r (full cross product for scalar pairs and loops), with and without the version comment; thorough: also every ordered TRIPLE over the reduced token set (all presentations of 14 core atoms) in a loop row, a loop column and a list; content known by construction from the generator; plus the names family: block code, frame code, data name, looped name and table key carrying each of %d name characters (delimiters that are ordinary inside a name, first / last code point of every permitted range, characters that grow under normalisation) at the start, in the middle, at the end and doubled. Columns family: every ordered pair (and triple, for 8 of them) of 14 values of all kinds - unknown, n/a, strings, number, lists, tables, nested, text field - in consecutive packets of one loop column. Options family: folded / prefixed / folded+prefixed text fields under all 9 combinations of line_folding_modifier and text_prefixing_modifier in both dialects, where cif.h states the outcome. '
                                'non-trivial = distinct ordered token pairs' % (len(ATOMS), STRUCTS2, STRUCTS1, SEPS, len(NAME_CHARS2)),
                        'samples': ["#\\#CIF_2.0\ndata_b _a 'it''s'...", 'loop_ _a <text field> <triple quoted>'], 'dialects': summary, 'exhaustive': True},
                       ['the generator (mc/c01.py: presentations(), fold_encode(), build_doc()) is the independent statement of the grammar',
